@@ -576,6 +576,8 @@ func (u *userBothCons) DoesVehicleHaveViolations(v nextroute.SolutionVehicle) bo
 // registerUsers adds the user constraints of the case.  A stop-level line
 // flagged "paired" (6th field 1) and the vehicle-level line that follows it
 // become ONE constraint object with two exact checks.
+var triangleFlag bool
+
 func registerUsers(model nextroute.Model, c *engineCtx) {
 	mk := func(i int, fsu []string) userCons {
 		mx, _ := strconv.ParseFloat(fsu[2], 64)
@@ -657,6 +659,8 @@ func runEngine(b block) {
 			if err := json.Unmarshal([]byte(strings.TrimPrefix(raw, "gopt ")), &opts); err != nil {
 				panic(err)
 			}
+		case "triangle":
+			triangleFlag = len(fs) > 1 && fs[1] == "1"
 		case "user":
 			userDefs = append(userDefs, fs)
 		case "build":
@@ -668,6 +672,14 @@ func runEngine(b block) {
 			}
 			c.model = model
 			c.nInput = len(input.Stops)
+			if triangleFlag {
+				// the caller declares that the travel durations satisfy the triangle inequality (the generator only
+				// does so for metric matrices): API-only flag, the factory never sets it
+				for _, vt := range model.VehicleTypes() {
+					vt.TravelDurationExpression().SetSatisfiesTriangleInequality(true)
+				}
+				triangleFlag = false
+			}
 			defer func() { userDefs = nil }()
 			resNames := fs[1:]
 			c.resExprs = make([]nextroute.ModelExpression, len(resNames))
